@@ -8,9 +8,68 @@ over the field, FALSE exactly for the point at infinity.  (GF(2^409), GF(2^571):
 decision of irreducibility takes 5 resp. 13 CPU-minutes and is not part of the default build.)
 -/
 import Bee2V.C06.LemmasTop3
+import Bee2V.C05.PropsFld
 namespace Bee2V.C06
 open WeierstrassCurve
 open Bee2V.C05.Fld (toR)
+
+/-! ### every irreducible modulus (round 3): the un-hypothesised versions of the `_partial` theorems
+
+`md` is the modulus polynomial as a natural (bit i = coefficient of x^i), `m = md.log2` its degree, `md % 2 = 1`
+its constant term (`x ∤ md`; necessary: `ppInvModV 1 2 = 0`).  `C05.NatIrred md` ⇔ `C05.ppIsIrredV md = true` (the
+model of the library's own `ppIsIrred`, which `gf2IsValid`/`ec2IsValid` call) ⇔ `Irreducible (decode md)` in
+`(ZMod 2)[X]` (C05.PropsFld).  The field is `C05.Gf2.R md` = GF(2)[x]/(md). -/
+
+section irred
+variable {md : Nat} [Fact (C05.NatIrred md)]
+
+/-- the table `ec2CreateLD` installs, run on the driver's arithmetic `gf2Fld md m`, is a correct operation table
+    for the group of points over GF(2)[x]/(md) — no arithmetic assumption left -/
+theorem ecOps2_sim_correct (m : Nat) (hm : md.log2 = m) (ho : md % 2 = 1) {A B : Nat}
+    (hA : A < 2 ^ m) (hB : B < 2 ^ m) :
+    (ecOps2 (mkCurve2 (gf2Fld md m) A B)).Correct
+      (fun q P => Sim.R3 (fun a => a < 2 ^ m) q ∧ RepB3 (toR md A) (toR md B) (Sim.map3 (toR md) q) P)
+      (fun q P => Sim.R2 (fun a => a < 2 ^ m) q ∧ RepB2 (toR md A) (toR md B) (Sim.map2 (toR md) q) P) :=
+  ecOps2_sim_correct_partial (C05.gf2Fld_sim m hm ho) hA hB
+
+/-- `ecMulA` as `drv_c06` runs it on a binary curve: FALSE iff `d • P = O`, else reduced coordinates of `d • P` -/
+theorem ecMulA_gf2 (m : Nat) (hm : md.log2 = m) (ho : md % 2 = 1) {A B : Nat}
+    (hA : A < 2 ^ m) (hB : B < 2 ^ m) {a : P2 Nat} {P : (Wb (toR md A) (toR md B)).Point}
+    (hr : Sim.R2 (fun a => a < 2 ^ m) a)
+    (ha : RepB2 (toR md A) (toR md B) (Sim.map2 (toR md) a) P) (W mm d : Nat) :
+    (ecMulA (ecOps2 (mkCurve2 (gf2Fld md m) A B)) W a d mm = none ↔ d • P = 0) ∧
+    ∀ b, ecMulA (ecOps2 (mkCurve2 (gf2Fld md m) A B)) W a d mm = some b →
+      Sim.R2 (fun a => a < 2 ^ m) b ∧ RepB2 (toR md A) (toR md B) (Sim.map2 (toR md) b) (d • P) :=
+  ecMulA_spec (ecOps2_sim_correct m hm ho hA hB) ⟨hr, ha⟩ W mm d
+
+theorem ecHasOrderA_gf2 (m : Nat) (hm : md.log2 = m) (ho : md % 2 = 1) {A B : Nat}
+    (hA : A < 2 ^ m) (hB : B < 2 ^ m) {a : P2 Nat} {P : (Wb (toR md A) (toR md B)).Point}
+    (hr : Sim.R2 (fun a => a < 2 ^ m) a)
+    (ha : RepB2 (toR md A) (toR md B) (Sim.map2 (toR md) a) P) (W mm q : Nat) :
+    ecHasOrderA (ecOps2 (mkCurve2 (gf2Fld md m) A B)) W a q mm = true ↔ q • P = 0 :=
+  ecHasOrderA_spec (ecOps2_sim_correct m hm ho hA hB) ⟨hr, ha⟩ W mm q
+
+theorem ecAddMulA_gf2 (m : Nat) (hm : md.log2 = m) (ho : md % 2 = 1) {A B : Nat}
+    (hA : A < 2 ^ m) (hB : B < 2 ^ m) (args : List (P2 Nat × Nat))
+    (Ps : List (Wb (toR md A) (toR md B)).Point)
+    (h : List.Forall₂ (fun ad P => Sim.R2 (fun a => a < 2 ^ m) ad.1 ∧
+      RepB2 (toR md A) (toR md B) (Sim.map2 (toR md) ad.1) P) args Ps) (W : Nat) :
+    let s := (List.zipWith (fun ad P => ad.2 • P) args Ps).sum
+    (ecAddMulA (ecOps2 (mkCurve2 (gf2Fld md m) A B)) W args = none ↔ s = 0) ∧
+    ∀ b, ecAddMulA (ecOps2 (mkCurve2 (gf2Fld md m) A B)) W args = some b →
+      Sim.R2 (fun a => a < 2 ^ m) b ∧ RepB2 (toR md A) (toR md B) (Sim.map2 (toR md) b) s :=
+  ecAddMulA_spec (ecOps2_sim_correct m hm ho hA hB) args Ps h W
+
+end irred
+
+/-- the hypothesis in the library's own terms: a modulus accepted by (the model of) `ppIsIrred` -/
+theorem natIrred_of_ppIsIrred {md : Nat} (h : C05.ppIsIrredV md = true) : C05.NatIrred md :=
+  (C05.ppIsIrredV_iff md).1 h
+
+/-- non-vacuity of the general theorems: GF(2^4) = GF(2)[x]/(x^4 + x + 1) -/
+example : True := by
+  have := @ecOps2_sim_correct 0b10011 ⟨C05.natIrred_19⟩ 4 (by decide) (by decide) 0 1 (by decide) (by decide)
+  trivial
 
 theorem gf2Mod_163 : gf2Mod 163 7 6 3 = 2 ^ 163 + 2 ^ 7 + 2 ^ 6 + 2 ^ 3 + 1 := by decide +kernel
 theorem gf2Mod_233 : gf2Mod 233 74 0 0 = 2 ^ 233 + 2 ^ 74 + 1 := by decide +kernel
